@@ -51,6 +51,7 @@ type Prog struct {
 	Desugared int // tagless switches rewritten as if-chains (desugar.go)
 	Unrolled  int // loops over written-out tables rewritten as straight-line code (unroll.go)
 	Clamps    int // branch-written clamps and saturating subtractions rewritten with min/max (desugar.go)
+	Flags     int // boolean flags defined as a disjunction turned into their negation (desugar_cmp.go)
 	SplitCmps int // ordering tests against a min/max split into the tests against its operands (desugar_cmp.go)
 
 	ssaOnce sync.Once
@@ -226,6 +227,7 @@ func load(o loadOpts) (*Prog, error) {
 	p.Unrolled = desugarTableLoops(p)
 	p.Clamps = desugarClamps(p)
 	p.SplitCmps = desugarMinMaxCmps(p)
+	p.Flags = desugarFlagPolarity(p)
 	return p, nil
 }
 
